@@ -162,6 +162,27 @@ func runVictimJob(e *Env, j Job, r *JobResult) {
 	_, res := e.RunTxn(h.Txns[j.Victim], h.Stores, models, RunOpts{BeforeCommitModels: func(t *Txn, post []*Model) {
 		tx = t
 		r.Post = post
+		if h.Rival != nil {
+			rm, rres := e.RunTxn(*h.Rival, h.Stores, models, RunOpts{})
+			if rres.OpErr != nil || rres.Mismatch != "" || rres.CommitErr != nil {
+				r.Err = fmt.Sprintf("HARNESS-ERROR rival: %v %s %v", rres.OpErr, rres.Mismatch, rres.CommitErr)
+				flushResult(j, r)
+				os.Exit(3)
+			}
+			// the rival's keys are nobody else's: they are part of the state before and after the victim
+			pre := make([]*Model, len(models))
+			for i := range models {
+				pre[i] = models[i].Clone()
+				r.Post[i] = r.Post[i].Clone()
+				for _, it := range rm[i].Items {
+					if !models[i].Has(it.K) {
+						pre[i].Add(it.K, it.V)
+						r.Post[i].Add(it.K, it.V)
+					}
+				}
+			}
+			r.Pre = pre
+		}
 		before = t.Calls()
 		flushResult(j, r)
 		if j.CrashK < 0 {
@@ -270,7 +291,16 @@ func runRestartJob(e *Env, j Job, r *JobResult) {
 		}
 		p := j.History.Txns[j.Victim]
 		t0 := time.Now()
-		_, res := e.RunTxn(p, stores, models, RunOpts{MaxTime: 8 * time.Second})
+		var res TxnResult
+		func() {
+			// a panic inside SOP (the tree the recovery left behind) is a result, not the end of the worker
+			defer func() {
+				if p := recover(); p != nil {
+					res.OpErr = fmt.Errorf("PANIC inside SOP: %v", p)
+				}
+			}()
+			_, res = e.RunTxn(p, stores, models, RunOpts{MaxTime: 8 * time.Second})
+		}()
 		if res.OpErr != nil {
 			r.RetryErr = "ops: " + res.OpErr.Error()
 		} else if res.CommitErr != nil {
